@@ -530,16 +530,24 @@ def op_env(op: tuple, owned_env: list[int]) -> int | None:
     return None
 
 
-def run_history(ops: list[tuple], trace: bool = False) -> list[dict[str, Any]]:
+def run_history(ops: list[tuple], trace: bool = False, process: bool = False) -> list[dict[str, Any]]:
+    """Run a history on real objects.  trace: snapshot the history's objects
+    (environments, parsers, tags, templates) around every step, successful or
+    not; with `process` also every container / object held by liquid2's modules
+    and classes (used in a pristine process to localise a difference)."""
     loop = asyncio.new_event_loop()
     try:
         w = World(loop)
         steps = []
+        state = world_state(w, process) if trace else {}
         for op in ops:
+            ne, no = len(w.envs), len(w.owned)
+            o = w.step(op)
+            changed: list[str] = []
             if trace:
-                o, changed = traced_step(w, op)
-            else:
-                o, changed = w.step(op), []
+                after = world_state(w, process)
+                changed = diff_states(op, state, after, ne, no)
+                state = after
             steps.append({"obs": o, "snap": w.snapshot(), "trace": changed})
         return steps
     finally:
@@ -660,6 +668,8 @@ def _read_msg(fd: int) -> Any:
 def _handle(req: tuple) -> Any:
     if req[0] == "replay":
         return replay_then(req[1], req[2])
+    if req[0] == "trace":
+        return [(s["obs"], s["trace"]) for s in run_history(req[1], trace=True, process=True)]
     if req[0] == "fsrender":
         return fs_fresh_render(*req[1:])
     raise ValueError(req[0])
@@ -723,34 +733,60 @@ class Pristine:
 _CONTAINERS = (dict, list, set, collections.deque)   # OrderedDict / defaultdict are dicts
 
 
+_SLOTS: dict[type, tuple[str, ...]] = {}
+
+
+def _slot_names(t: type) -> tuple[str, ...]:
+    names = _SLOTS.get(t)
+    if names is None:
+        acc: list[str] = []
+        for cls in t.__mro__:
+            sl = cls.__dict__.get("__slots__", ())
+            if isinstance(sl, str):
+                sl = (sl,)
+            acc += [n for n in sl if n not in ("__dict__", "__weakref__")]
+        names = _SLOTS[t] = tuple(acc)
+    return names
+
+
 def _fields(o: Any) -> list[tuple[str, Any]]:
     out: list[tuple[str, Any]] = []
     d = getattr(o, "__dict__", None)
     if isinstance(d, dict):
         out += list(d.items())
-    for cls in type(o).__mro__:
-        sl = cls.__dict__.get("__slots__", ())
-        if isinstance(sl, str):
-            sl = (sl,)
-        for name in sl:
-            if name in ("__dict__", "__weakref__"):
-                continue
-            try:
-                out.append((name, getattr(o, name)))
-            except AttributeError:
-                pass
+    for name in _slot_names(type(o)):
+        try:
+            out.append((name, getattr(o, name)))
+        except AttributeError:
+            pass
     return out
 
 
 _SKIP_FIELDS = {"cache", "calls", "fail_at", "_lock"}   # loader cache: modelled state; harness fault counters
 
 
-def fp(o: Any, depth: int, seen: set[int]) -> Any:
+_ROOT: dict[type, bool] = {}
+
+
+def _is_root_object(o: Any) -> bool:
+    """Environments and templates are fingerprinted under their own path; where
+    another object points at them only the identity counts."""
+    t = type(o)
+    v = _ROOT.get(t)
+    if v is None:
+        v = _ROOT[t] = any(c.__name__ in ("Environment", "Template") and (c.__module__ or "").startswith("liquid2")
+                           for c in t.__mro__)
+    return v
+
+
+def fp(o: Any, depth: int, seen: set[int], top: bool = False) -> Any:
     """A structural fingerprint: values of containers and of liquid2 objects
     down to `depth`, identities below."""
     if o is None or isinstance(o, (bool, int, float, str, bytes)):
         return o
     t = type(o)
+    if not top and _is_root_object(o):
+        return (t.__qualname__, id(o))
     if isinstance(o, (list, tuple, collections.deque)):
         return (t.__name__, tuple(fp(x, depth - 1, seen) for x in o)) if depth > 0 else (t.__name__, len(o))
     if isinstance(o, dict):
@@ -774,23 +810,30 @@ def fp(o: Any, depth: int, seen: set[int]) -> Any:
 
 
 def _h(x: Any) -> int:
-    return hash(repr(x))
+    try:
+        return hash(x)
+    except TypeError:
+        return hash(repr(x))
 
 
 def process_state() -> dict[str, int]:
     """Every mutable container (and every liquid2 object, lru_cache) held by a
     liquid2 module global or by a class attribute of a liquid2 class."""
     out: dict[str, int] = {}
+    done: set[int] = set()
     for mname, mod in list(sys.modules.items()):
         if not (mname == "liquid2" or mname.startswith("liquid2.")) or mod is None:
             continue
         for name, val in list(vars(mod).items()):
             if name.startswith("__") or (mname == "liquid2" and name == "DEFAULT_ENVIRONMENT"):
                 continue
+            if id(val) in done:
+                continue
+            done.add(id(val))
             if isinstance(val, type):
                 if (getattr(val, "__module__", "") or "").startswith("liquid2"):
                     for attr, cv in list(vars(val).items()):
-                        if attr.startswith("__") and attr not in ("__slots__",):
+                        if attr.startswith("__") and attr != "__slots__":
                             continue
                         if isinstance(cv, _CONTAINERS) or (hasattr(cv, "cache_info") and hasattr(cv, "__wrapped__")):
                             out[f"cls:{val.__module__}.{val.__qualname__}.{attr}"] = _h(fp(cv, 3, set()))
@@ -805,8 +848,10 @@ def process_state() -> dict[str, int]:
     return out
 
 
-def world_state(w: "World") -> dict[str, int]:
-    out = process_state()
+def world_state(w: "World", process: bool = False) -> dict[str, int]:
+    """The objects of one history (environments with parser and tags, templates);
+    with `process`, also the process-wide state."""
+    out = process_state() if process else {}
     for i, env in enumerate(w.envs):
         for attr, val in list(vars(env).items()):
             out[f"env{i}.{attr}"] = _h(fp(val, 4, set()))
@@ -816,9 +861,9 @@ def world_state(w: "World") -> dict[str, int]:
             out[f"env{i}.tag.{tname}"] = _h(fp(tag, 3, set()))
     for j, t in enumerate(w.owned):
         if t is not None:
-            out[f"tmpl:own{j}"] = _h(fp(t, 14, set()))
+            out[f"tmpl:own{j}"] = _h(fp(t, 14, set(), top=True))
     for (e, name), t in w.cached_refs.items():
-        out[f"tmpl:cached{e}:{name}"] = _h(fp(t, 14, set()))
+        out[f"tmpl:cached{e}:{name}"] = _h(fp(t, 14, set(), top=True))
     return out
 
 
@@ -838,14 +883,9 @@ def allowed_change(op: tuple, path: str, w: "World", n_envs_before: int, n_owned
     return False
 
 
-def traced_step(w: "World", op: tuple) -> tuple[tuple, list[str]]:
-    before = world_state(w)
-    ne, no = len(w.envs), len(w.owned)
-    obs = w.step(op)
-    after = world_state(w)
-    changed = [p for p in sorted(set(before) | set(after))
-               if before.get(p) != after.get(p) and not allowed_change(op, p, w, ne, no)]
-    return obs, changed
+def diff_states(op: tuple, before: dict[str, int], after: dict[str, int], ne: int, no: int) -> list[str]:
+    return [p for p in sorted(set(before) | set(after))
+            if before.get(p) != after.get(p) and not allowed_change(op, p, None, ne, no)]
 
 
 # ---------------------------------------------------------------- Coq terms
@@ -1279,6 +1319,174 @@ def fault_sweeps(r: Any, n_hist: int) -> list[list[tuple]]:
     return out
 
 
+# ---------------------------------------------------------------- edited partials (file-system loader)
+
+
+def _scratch() -> str:
+    return tempfile.mkdtemp(prefix="c09_", dir=os.environ.get("VERIF_SCRATCH", "/var/tmp"))
+
+
+def _write_tree(root: str, files: dict[str, str], stamp: int) -> None:
+    for name, src in files.items():
+        p = os.path.join(root, name)
+        with open(p, "w") as f:
+            f.write(src)
+        os.utime(p, (1_000_000 + stamp, 1_000_000 + stamp))
+
+
+def _call(loop: asyncio.AbstractEventLoop, sync_fn: Any, async_fn: Any, is_async: bool) -> tuple:
+    try:
+        out = loop.run_until_complete(async_fn()) if is_async else sync_fn()
+        return ("text", out)
+    except Exception as e:  # noqa: BLE001
+        return exc_obs(e)
+
+
+def fs_fresh_render(files: dict[str, str], name: str, data: list, is_async: bool, tick: int) -> tuple:
+    """The render on freshly built objects: a new directory with the current
+    files, a new Environment with a plain FileSystemLoader."""
+    import liquid2
+
+    root = _scratch()
+    loop = asyncio.new_event_loop()
+    try:
+        CLOCK.k = tick
+        _write_tree(root, files, 0)
+        env = liquid2.Environment(loader=liquid2.FileSystemLoader(root))
+        try:
+            t = env.get_template(name)
+        except Exception as e:  # noqa: BLE001
+            return exc_obs(e)
+        d = py_map(data)
+        return _call(loop, lambda: t.render(**d), lambda: t.render_async(**d), is_async)
+    finally:
+        loop.close()
+        shutil.rmtree(root, ignore_errors=True)
+
+
+def fs_scenario(r: Any) -> dict[str, Any]:
+    """Templates on disk behind a CachingFileSystemLoader(auto_reload=True):
+    partials reached through include / render / extends / call, edited between
+    renders of the same Template object and of re-fetched ones."""
+    ver = [0]
+
+    def body(names: list[str]) -> list[tuple]:
+        ver[0] += 1
+        return [("T", f"<{ver[0]}>")] + gen_prog(r, 1, names, 0, 2)
+
+    files: dict[str, list[tuple]] = {}
+    files["q"] = body([])
+    files["p"] = body([]) + [r.choice([("Inc", "q"), ("Ren", "q")])] + ([("B", "pb", body([]))] if r.random() < 0.4 else [])
+    files["ba"] = [("T", "[")] + body([]) + [("B", "b", body([]) + [("Inc", "p")]), ("B", "e", body([])), ("T", "]")]
+    files["ch"] = [("Ext", "ba"), ("B", "b", body([]) + [r.choice([("Inc", "p"), ("Ren", "p")])])]
+    files["gc"] = [("Ext", "ch"), ("B", "e", body([]))]
+    files["m1"] = body([]) + [("Inc", "p"), ("I", "c")]
+    files["m2"] = body([]) + [("Ren", "p"), ("M", "m", [("Ren", "q"), ("E", "a")]), ("Call", "m", ("L", "t")), ("Inc", "gc")]
+    tops = ["m1", "m2", "ch", "gc", "ba"]
+    deps = {"m1": ["p", "q"], "m2": ["p", "q", "gc", "ch", "ba"], "ch": ["ba", "p", "q"], "gc": ["ch", "ba", "p", "q"],
+            "ba": ["p", "q"]}
+    script: list[tuple] = []
+    top = r.choice(tops)
+    script.append(("get", top, r.random() < 0.5))
+    data = [("x", ("s", "dx")), ("arr", ("l", ["a", "b", "c"]))]
+    script.append(("render", 0, data, r.random() < 0.5))
+    handles = 1
+    for _ in range(r.randint(2, 4)):
+        target = r.choice(deps[top] + ([top] if r.random() < 0.15 else []))
+        roll = r.random()
+        if roll < 0.12:
+            script.append(("modify", target, break_prog(r, body([]))))
+        elif roll < 0.2:
+            script.append(("delete", target))
+        else:
+            new = list(files[target])
+            new[0 if new[0][0] == "T" and new[0][1].startswith("<") else 1] = ("T", f"<{ver[0] + 1}>")
+            ver[0] += 1
+            if new == files[target]:
+                new = [("T", f"<{ver[0]}>")] + new
+            script.append(("modify", target, new))
+        if r.random() < 0.2:
+            script.append(("tick",))
+        # the same Template object again, sync and async, and a re-fetched one
+        script.append(("render", r.randrange(handles), data, r.random() < 0.5))
+        if r.random() < 0.6:
+            script.append(("get", top, r.random() < 0.5))
+            handles += 1
+            script.append(("render", handles - 1, data, r.random() < 0.5))
+        if r.random() < 0.3:
+            script.append(("render", r.randrange(handles), data, r.random() < 0.5))
+    return {"files": files, "script": script, "top": top}
+
+
+def run_fs_scenario(sc: dict[str, Any]) -> list[dict[str, Any]]:
+    """Returns, per render step: the observation and the inputs of the render
+    (current files, with the rendered Template's own source as it was fetched)."""
+    import liquid2
+
+    root = _scratch()
+    loop = asyncio.new_event_loop()
+    try:
+        CLOCK.k = 0
+        current: dict[str, list[tuple]] = {n: list(p) for n, p in sc["files"].items()}
+        stamp = 1
+        _write_tree(root, {n: src_of(p) for n, p in current.items()}, stamp)
+        env = liquid2.Environment(loader=liquid2.CachingFileSystemLoader(root, auto_reload=True))
+        handles: list[tuple[str, Any, list[tuple] | None]] = []
+        out = []
+        for st in sc["script"]:
+            k = st[0]
+            if k == "get":
+                name = st[1]
+                try:
+                    t = (loop.run_until_complete(env.get_template_async(name)) if st[2] else env.get_template(name))
+                except Exception as e:  # noqa: BLE001
+                    t = exc_obs(e)
+                handles.append((name, t, current.get(name)))
+            elif k == "modify":
+                stamp += 1
+                current[st[1]] = list(st[2])
+                _write_tree(root, {st[1]: src_of(st[2])}, stamp)
+            elif k == "delete":
+                current.pop(st[1], None)
+                try:
+                    os.unlink(os.path.join(root, st[1]))
+                except FileNotFoundError:
+                    pass
+            elif k == "tick":
+                CLOCK.k += 1
+            elif k == "render":
+                name, t, own = handles[st[1]]
+                inputs = dict(current)
+                if own is not None:
+                    inputs[name] = own
+                else:
+                    inputs.pop(name, None)
+                if isinstance(t, tuple):
+                    obs = t          # the fetch itself raised
+                else:
+                    d = py_map(st[2])
+                    obs = _call(loop, lambda: t.render(**d), lambda: t.render_async(**d), st[3])
+                out.append({"obs": obs, "name": name, "files": inputs, "data": st[2], "async": st[3], "tick": CLOCK.k,
+                            "fetch_failed": isinstance(t, tuple)})
+        return out
+    finally:
+        loop.close()
+        shutil.rmtree(root, ignore_errors=True)
+
+
+def fs_case(step: dict[str, Any]) -> tuple[list[tuple], list[dict[str, Any]]]:
+    """The model's answer for the render on fresh objects with these inputs."""
+    ops: list[tuple] = [("env", False, False, [], sorted(step["files"].items()), [])]
+    ops += [("tick",)] * step["tick"]
+    ops += [("gt", 1, step["name"], [], False), ("r", ("own", 0), step["data"], None, None, False)]
+    obs = step["obs"]
+    if step["fetch_failed"] or step["name"] not in step["files"]:
+        exp = [("unit",)] * (1 + step["tick"]) + [obs, ("bad",)]
+    else:
+        exp = [("unit",)] * (1 + step["tick"]) + [("own", 0), obs]
+    return ops, [{"obs": o, "snap": [[], []]} for o in exp]
+
+
 # ---------------------------------------------------------------- classification
 
 
@@ -1325,12 +1533,26 @@ def main(chk: C.Check, build: C.Build) -> None:
     warnings.simplefilter("ignore")
     proofs_ok = C.proof_stage(chk, build, NEEDED)
     patch_clock()
+    # liquid2 is imported, nothing has been parsed or rendered yet: the baseline process
+    pristine = Pristine()
+    try:
+        _main(chk, pristine)
+    finally:
+        pristine.close()
+    C.proofs_verdict(chk, proofs_ok)
+
+
+def _path_kind(p: str) -> str:
+    return re.sub(r"^(env|tmpl:own|tmpl:cached)\d+(:[^.]*)?", lambda m: m.group(1), p)
+
+
+def _main(chk: C.Check, pristine: Pristine) -> None:
     thorough = chk.tier == "thorough"
     r = C.rng("c09")
     maxlen = 10 if thorough else 6
     hist: list[list[tuple]] = list(corpus())
-    hist += fault_sweeps(r, 60 if thorough else 10)
-    for _ in range(5000 if thorough else 320):
+    hist += fault_sweeps(r, 60 if thorough else 8)
+    for _ in range(4000 if thorough else 260):
         hist.append(gen_history(r, maxlen))
 
     items = []
@@ -1338,8 +1560,32 @@ def main(chk: C.Check, build: C.Build) -> None:
     dist: dict[str, int] = {}
     n_steps = n_oracle = 0
     samples = []
+    n_traced = n_pristine = 0
     for hi, ops in enumerate(hist):
-        steps = run_history(ops)
+        steps = run_history(ops, trace=True, process=True)
+        # direct oracle "no trace": nothing but the modelled session state changes, in any step
+        for i, (o, s) in enumerate(zip(ops, steps)):
+            n_traced += 1
+            if s["trace"]:
+                chk.finding("no-trace:" + _path_kind(s["trace"][0]),
+                            f"step {i} ({o[0]}, observed {s['obs'][:2]}) changed {s['trace'][:6]}: state outside the render "
+                            "context / the modelled session was written",
+                            {"history": ops, "step": i, "changed": s["trace"], "sources": _sources(ops),
+                             "how": "harness/c09.py run_history(trace=True, process=True)"})
+        # the whole history in a pristine process: same observations, nothing written there either
+        if hi < 40 or hi % (10 if thorough else 6) == 0:
+            pt = pristine.call(("trace", ops))
+            n_pristine += 1
+            for i, (o, s, (pobs, ptrace)) in enumerate(zip(ops, steps, pt if isinstance(pt, list) else [])):
+                if pobs != s["obs"] or ptrace:
+                    chk.finding("pristine-history:" + (_path_kind(ptrace[0]) if ptrace else _signature(o, s["obs"], pobs)),
+                                f"step {i} run in a process that had never parsed or rendered anything gives {pobs} "
+                                f"(here: {s['obs']}) and changed {ptrace[:6]}",
+                                {"history": ops, "step": i, "here": s["obs"], "pristine": pobs, "changed": ptrace,
+                                 "sources": _sources(ops)})
+                    break
+            if not isinstance(pt, list):
+                chk.notes.append(f"pristine trace failed: {pt}")
         mech = mechanisms(ops, steps)
         for x in mech:
             dist[x] = dist.get(x, 0) + 1
@@ -1373,12 +1619,18 @@ def main(chk: C.Check, build: C.Build) -> None:
                             {"history": ops, "step": i, "in_history": s["obs"], "fresh": fo,
                              "sources": _sources(ops), "how": "harness/c09.py run_history / fresh_obs"})
                 continue
-            iso = isolated_obs(ops, steps, i)
-            if iso is not None and iso[0] != iso[1]:
-                chk.finding("isolated:" + _signature(o, iso[1], iso[0]),
-                            f"step {i} gives {iso[1]}, with every other Environment left out of the history it gives {iso[0]}",
-                            {"history": ops, "step": i, "in_history": iso[1], "isolated": iso[0],
-                             "sources": _sources(ops), "how": "harness/c09.py isolated_obs"})
+            mr = minimal_replay(ops, i)
+            if mr is not None:
+                prefix, op2, rename = mr
+                got = pristine.call(("replay", prefix, op2))
+                n_pristine += 1
+                if got != rename(s["obs"]):
+                    chk.finding("pristine:" + _signature(o, rename(s["obs"]), got),
+                                f"step {i} gives {rename(s['obs'])}; in a process that never parsed or rendered anything, with only "
+                                f"its own environment and template built, it gives {got}",
+                                {"history": ops, "step": i, "in_history": s["obs"], "pristine_minimal": got,
+                                 "replayed_prefix": prefix, "replayed_op": op2,
+                                 "sources": _sources(ops), "how": "harness/c09.py minimal_replay in a Pristine child"})
         case, model = c_case(ops, steps)
         items.append({"case": case, "model": model,
                       "replay": {"history": ops, "implementation": [s["obs"] for s in steps],
@@ -1400,8 +1652,37 @@ def main(chk: C.Check, build: C.Build) -> None:
     items.append({"case": case, "model": model,
                   "replay": {"history": STALE_PARSE, "implementation": [s["obs"] for s in steps]}})
 
+    # partials edited on disk behind a CachingFileSystemLoader(auto_reload=True)
+    n_fs = n_fs_edits_seen = 0
+    for _ in range(400 if thorough else 30):
+        sc = fs_scenario(r)
+        last_by_name: dict[str, tuple] = {}
+        for st in run_fs_scenario(sc):
+            n_fs += 1
+            srcs = {k: src_of(p) for k, p in st["files"].items()}
+            fr = fs_fresh_render(srcs, st["name"], st["data"], st["async"], st["tick"])
+            pr = pristine.call(("fsrender", srcs, st["name"], st["data"], st["async"], st["tick"]))
+            n_pristine += 1
+            if last_by_name.get(st["name"], st["obs"]) != st["obs"]:
+                n_fs_edits_seen += 1
+            last_by_name[st["name"]] = st["obs"]
+            if fr != st["obs"] or pr != st["obs"]:
+                chk.finding("fs:render-after-edit",
+                            f"{st['name']} rendered through a CachingFileSystemLoader(auto_reload=True) gives {st['obs']}; "
+                            f"freshly built objects on the same files give {fr} (pristine process: {pr})",
+                            {"script": sc["script"], "initial_files": {k: src_of(p) for k, p in sc["files"].items()},
+                             "files_now": srcs, "template": st["name"], "async": st["async"],
+                             "how": "harness/c09.py run_fs_scenario / fs_fresh_render"})
+            ops_m, exp_m = fs_case(st)
+            case, model = c_case(ops_m, exp_m)
+            items.append({"case": case, "model": model,
+                          "replay": {"fs_render": st["name"], "files": srcs, "implementation": st["obs"]}})
+    dist["fs-renders"] = n_fs
+    dist["fs-renders-showing-an-edit"] = n_fs_edits_seen
+    dist["steps-traced"] = n_traced
+    dist["pristine-process-evaluations"] = n_pristine
+
     C.correspond(chk, "c09", IMPORTS, DEFS, items, what="Session.run", shard=40)
-    C.proofs_verdict(chk, proofs_ok)
 
     chk.coverage.update({
         "evaluations": len(hist),
